@@ -938,7 +938,7 @@ def loop_fn_prog(rng):
 def stopping_tree(rng):
     """a two-file program whose analysis is stopped by ONE condition; -> (files, names, kind, where): `names` are the
     labels at fault, `where` the files that hold an occurrence at which the error may be located"""
-    kind = rng.choice(["undefined-two-files", "undefined-two-files", "undefined-lib", "noreturn-lib", "duplicate-lib", "duplicate-across", "eof-label-lib"])
+    kind = rng.choice(["undefined-two-files"] * 4 + ["undefined-lib", "noreturn-lib", "duplicate-lib", "duplicate-across", "eof-label-lib"])
     pad_a, pad_b = rng.randrange(0, 4), rng.randrange(0, 6)
     pool = ["alpha_missing", "zeta_missing", "mid_gone", "Zed", "a_1", "nowhere", "B", "zz"]
     n1, n2 = rng.sample(pool, 2)
